@@ -60,9 +60,15 @@ def _one(expr, d):
             ns = {"r": r, "rep": rep}
             for m in ("sem", "groups") + tuple(f"c{i:02d}" for i in range(1, 21)):
                 ns[m] = importlib.import_module(f"sa.rules.{m}")
-            exec(expr, ns)
+            later = ""
+            try:
+                exec(expr, ns)
+            except AnalysisError as e:
+                if not rep.findings:
+                    raise
+                later = f"  (then analysis error: {str(e)[:120]})"
             bad = [o for o in rep.obligations if o["verdict"] != "discharged"]
-            print(f"{name}: {'ALARM ' + str(len(bad)) if bad else 'silent'}")
+            print(f"{name}: {'ALARM ' + str(len(bad)) if bad else 'silent'}{later}")
             for o in bad[:4]:
                 print("    ", o["site"][:90], "|", o["detail"][:260])
         except AnalysisError as e:
